@@ -3,6 +3,8 @@ package main
 // Calls: builtins, inlining, modular (contract) calls, abstract calls, trusted external specs.
 
 import (
+	"sync"
+	"go/ast"
 	"fmt"
 	"go/token"
 	"go/types"
@@ -270,7 +272,49 @@ func (ex *Exec) havocMap(st *State, m Val) {
 	}
 }
 
+// debugNames: the source-level variable a value is bound to (from go/ssa DebugRef instructions), filled lazily per function.
+var (
+	debugNames   = map[ssa.Value]string{}
+	debugNamesOf = map[*ssa.Function]bool{}
+	debugNamesMu sync.Mutex
+)
+
+func debugNameOf(v ssa.Value) string {
+	in, ok := v.(ssa.Instruction)
+	if !ok || in.Parent() == nil {
+		return ""
+	}
+	fn := in.Parent()
+	debugNamesMu.Lock()
+	defer debugNamesMu.Unlock()
+	if !debugNamesOf[fn] {
+		debugNamesOf[fn] = true
+		for _, b := range fn.Blocks {
+			for _, ins := range b.Instrs {
+				if d, ok := ins.(*ssa.DebugRef); ok && !d.IsAddr {
+					if id, ok := d.Expr.(*ast.Ident); ok {
+						if _, seen := debugNames[d.X]; !seen {
+							debugNames[d.X] = id.Name
+						}
+					}
+				}
+			}
+		}
+	}
+	return debugNames[v]
+}
+
 func sourceName(v ssa.Value) string {
+	if _, isU := v.(*ssa.UnOp); isU {
+		// a loaded value bound to a variable (e.g. the element variable of a range loop)
+		if x := v.(*ssa.UnOp); x.Op == token.MUL {
+			if _, isIdx := x.X.(*ssa.IndexAddr); isIdx {
+				if n := debugNameOf(v); n != "" {
+					return n
+				}
+			}
+		}
+	}
 	switch x := v.(type) {
 	case *ssa.FreeVar:
 		return x.Name()
